@@ -12,14 +12,20 @@ Tie (correspondence, driver namespace `ad`): `jax.jvp` of the real functions aga
   (with respect to the data and to the query), exponential_filter (state and attenuation), horizontal_diffusion_filter
   (state and scale), Robert-Asselin, the sigma column routines (cumulative integrals, centred difference, centred /
   upwind advection, geopotential), get_temperature_implicit (dense / sparse), PrimitiveEquations._t_omega_over_sigma_sp,
-  nodal_temperature_adiabatic_tendency (dry and moist), HeldSuarezForcing.equilibrium_temperature.
+  nodal_temperature_adiabatic_tendency (dry and moist), HeldSuarezForcing.equilibrium_temperature; and the model's
+  jvpChain / vjpChain (T8.1) on the Jacobians (jax.jacfwd) of two real column routines against jax.jvp / jax.vjp of
+  their composition.
 
 Probes on the REAL code (tests, labelled as such in the evidence): for every entry point f, state x, tangent v and
-cotangent w: jax.jvp and jax.vjp finite, <J v, w> = <v, J^T w>, central finite difference of f along v = J v;
-entry points: Grid.to_modal/to_nodal, explicit_terms / implicit_terms / implicit_inverse of the dry, moist and
-shallow-water classes, the two spectral filters, vertical regridding (fields and surface pressure), Held-Suarez
-forcing, complete 1-3 step functions (classes x integrators x filter stacks); gradients of nested_checkpoint_scan
-against a flat lax.scan for several factorisations, and of a step with / without jax.checkpoint.
+cotangent w: jax.jvp and jax.vjp finite, <J v, w> = <v, J^T w>, finite difference of f along v = J v (Richardson
+extrapolated central difference for the smooth entry points, a small-step central difference with kink exclusion for
+the piecewise-smooth ones); entry points: Grid.to_modal/to_nodal (and vjp(to_nodal)(w z) = to_modal(z)),
+explicit_terms / implicit_terms / implicit_inverse of the dry, moist, cloud and shallow-water classes (also at the
+state of rest), the two spectral filters, vertical regridding sigma <-> pressure, hybrid -> sigma (interpolating and
+conservative), get_surface_pressure (fields and surface pressure), the semi-Lagrangian vertical advection step,
+Held-Suarez forcing, complete 1-3 step functions (classes x integrators x filter stacks); value, gradient and jvp of
+nested_checkpoint_scan against a flat lax.scan for several factorisations (a pytree recurrence and a real filtered
+shallow-water step as body), and of a two-step loss with / without jax.checkpoint.
 """
 import math
 
@@ -401,7 +407,6 @@ def _corr(ctx, E):
     ctx.corr_float('jax.vjp of a composition vs vjpChain', inp, [rhs], [m[1]], rtol=CORR_RTOL, atol=1e-12 * sc_)
 
   outs = ctx.model(lines)
-  worst = 0.0
   for (op, inp, val, tan), o in zip(checks, outs):
     if o in ('bad-op', 'value-error', 'index-error', 'type-error'):
       ctx.corr_mismatch(op, inp, 'jvp', o, 'model rejected the operation')
@@ -409,8 +414,8 @@ def _corr(ctx, E):
     mv, mt = undvec(o.replace(';', ','))
     ctx.corr_float(op + '.value', inp, val, mv, rtol=CORR_RTOL)
     # tangents are compared on the scale of the tangent itself, or of rounding of the primal when it vanishes
-    ctx.corr_float(op + '.tangent', inp, tan, mt, rtol=CORR_RTOL, atol=1e-12 + 1e-13 * float(np.abs(val[np.isfinite(val)]).max(initial=0.0)))
-  return worst
+    ctx.corr_float(op + '.tangent', inp, tan, mt, rtol=CORR_RTOL,
+                   atol=1e-12 + 1e-13 * float(np.abs(val[np.isfinite(val)]).max(initial=0.0)))
 
 
 
@@ -853,20 +858,14 @@ def _probes_scan(ctx, E, grid, gname, n):
 
 
 def run(ctx: common.Ctx):
-  import time
   E = _Env()
   ctx.lean('DinoProofs.Properties.C08', 'C08.txt',
            extra_files=['DinoProofs/Lemmas/AD.lean', 'Dino/AD.lean', 'Dino/ADDrv.lean'])
-  print('lean', time.time() - ctx.t0)
   _corr(ctx, E)
-  print('corr', time.time() - ctx.t0)
   grid, gname, n = _run_grid(ctx, E)
   _probes_ops(ctx, E, grid, gname, n)
-  print('ops', time.time() - ctx.t0)
   _probes_steps(ctx, E, grid, gname, n)
-  print('steps', time.time() - ctx.t0)
   _probes_scan(ctx, E, grid, gname, n)
-  print('scan', time.time() - ctx.t0)
   for name, (val, key) in sorted(ctx.__dict__.get('c08_stats', {}).items()):
     ctx.notes.append(f'measured worst {name}: {val:.3e} at {key}')
   if not ctx.quick:
